@@ -80,6 +80,15 @@ func TestC09_Window(t *testing.T) {
 			from = int64(rapid.IntRange(0, 6).Draw(t, "from"))
 			until = int64(rapid.IntRange(0, 6).Draw(t, "until"))
 			tm = uint64(rapid.IntRange(0, 9).Draw(t, "t"))
+			// the bounds are signed integers: a negative bound is a bound like any other (a negative upper bound, given or
+			// defaulted from a negative lower bound, is never reached by an anchoring time)
+			if rapid.IntRange(0, 3).Draw(t, "negativeBounds") == 0 {
+				from = int64(rapid.IntRange(-8, 3).Draw(t, "negFrom"))
+				until = int64(rapid.IntRange(-8, 3).Draw(t, "negUntil"))
+				if rapid.IntRange(0, 3).Draw(t, "hugeNegative") == 0 {
+					until = -rapid.Int64Range(1, 1<<40).Draw(t, "hugeNegUntil")
+				}
+			}
 		}
 		effective := windowEffective(from, until, tm, delta)
 
